@@ -52,7 +52,7 @@ def main():
         "action_calls_through_generated_wrappers": r["action_calls"], "grammars_compiled": r["grammars"], "runs_by_clock_policy": r["runs_by_clock_policy"],
         "distinct_nontrivial": r["distinct_nontrivial"], "known_findings_matched": r["known"], "sample": r["sample"], "wall_s": round(wall, 1),
         "real_components": ["lrpar::CTParserBuilder output: generated module, wrappers (gen_wrappers), run_parser glue, OnceLock'd table deserialisation", "lrpar runtime incl. CPCT+"],
-        "stub_components": ["lexer: prepared lexemes handed to LRNonStreamingLexer::new", "seven fixed grammars (gen_c08/grammars.txt; one with an %avoid_insert token whose insertion cannot be avoided, one with a ()-typed rule that has an empty production): generated code needs rustc, so the grammar population is small here"],
+        "stub_components": ["lexer: prepared lexemes handed to LRNonStreamingLexer::new", "eight fixed grammars (gen_c08/grammars.txt; one with an %avoid_insert token whose insertion cannot be avoided, one with a ()-typed rule that has an empty production, one with a rule whose alternatives are written in two places): generated code needs rustc, so the grammar population is small here"],
     }
     ev["coverage"]["evaluations"] += r["evaluations"]
     ev["wall_s"] += wall
